@@ -1,0 +1,32 @@
+//go:build verif
+
+// Machine-checked contracts for package conn (comment-only; read by /verif/govc).
+// Property C14: nothing a remote peer puts on the wire makes the read side panic or allocate
+// without bound. The bytes read from the connection and every field proto.Unmarshal fills in are
+// arbitrary (contracts/externs/proto.spec); sub-message pointers may be nil.
+
+package conn
+
+// readMessage: the length prefix is checked against maxMessageSize before the buffer is allocated.
+//@ func readMessage
+//@   requires nc != nil
+//@   nopanic
+//@   modifies every p2p.Message.Version, every p2p.Message.Type, every p2p.Message.Bitfield, every p2p.Message.PieceRequest, every p2p.Message.PiecePayload, every p2p.Message.AnnouncePiece, every p2p.Message.CancelPiece, every p2p.Message.Error, every p2p.Message.Complete
+//@   assert bounded_alloc: at builtin.make#0 :: dataLen <= 32768
+//@   ensures result1 == nil ==> result0 != nil
+
+// readPayload: the length comes from the peer's PIECE_PAYLOAD message. It is rejected unless it lies
+// in [0, maxPieceLength]; only then is the buffer allocated.
+//@ func Conn.readPayload
+//@   requires c != nil && c.nc != nil && c.bandwidth != nil && c.maxPieceLength >= 0 && c.maxPieceLength <= 1099511627776
+//@   nopanic
+//@   modifies *
+//@   assert bounded_alloc: at builtin.make#0 :: 0 <= length && length <= c.maxPieceLength
+
+// Conn.readMessage: a PIECE_PAYLOAD message without a body is rejected; a delivered payload message
+// always carries its payload reader.
+//@ func Conn.readMessage
+//@   requires c != nil && c.nc != nil && c.bandwidth != nil && c.maxPieceLength >= 0 && c.maxPieceLength <= 1099511627776
+//@   nopanic
+//@   modifies *
+//@   ensures result1 == nil ==> result0 != nil && result0.Message != nil
